@@ -12,7 +12,7 @@
    [cs_done] = number of puts of the crashing process that had returned at that point;
    [crash_class] / [crash_guard] = where the crash point lies (executable). *)
 From GoCar Require Import Bytes Varint Cid Header Frame V2Header Index Scan Store Crash StoreSpec Wf.
-From GoCarProofs Require Import CidFacts HeaderFacts ResumeInv ResumeRefuted CrashTheorems CrashRefuted CrashGuarded.
+From GoCarProofs Require Import CidFacts HeaderFacts ScanFacts ResumeInv ResumeRefuted CrashTheorems CrashRefuted CrashGuarded CrashAbs.
 
 (* (1) PARTIAL.  Crash point in the open writes of a fresh process, in the writes Resume itself issued
    (Truncate, header zeroing) when the process started by resuming, at a section boundary before
@@ -112,6 +112,126 @@ Theorem C06_crash_safe_guarded :
               exists b', In b' stored' /\ same_key (w_whole o) (fst b') (fst b) = true /\ snd b' = snd b))).
 Proof. exact C06_crash_safe_guarded_thm. Qed.
 Print Assumptions C06_crash_safe_guarded.
+
+(* (1a) CLASS resume-phase: the crash happens while the process is itself resuming -- inside the
+   writes Resume issues on an existing file (Truncate at DataOffset+DataSize, then the zeroed CARv2
+   header in two WriteAt calls).  For every history of earlier processes, every such crash point
+   (k, t) and torn image: the point is inside the guard of (1)/(1'), and the SECOND resume either is
+   refused with the image byte for byte untouched, or yields the state the first resume was
+   building: file, index and writer position of [start]; no put of the crashing process exists yet
+   ([cs_acked] = the blocks acknowledged by earlier processes); and its abstract map (C04's
+   [StoreSpec.abs]: the blocks the store holds, the closed and finalized flags) is the
+   specification's map ([Wf.spec_stored]: ShouldPut folded over a put history, one Put per block)
+   of exactly those acknowledged puts. *)
+Theorem C06_resume_phase :
+  forall (hdrdec : bytes -> option (list bytes * N)) (x : csess) (f0 : bytes) (start : wstate)
+         (acked_pre : list (bytes * bytes)) (k : nat) (t : N),
+    let o := cs_opts x in
+    let hdr := enc_header (roots_opt (cs_nil x) (cs_roots x)) 1 in
+    let wellformed_put (b : bytes * bytes) :=
+      cid_parse (fst b) <> None ->
+      (exists p, cid_ok p /\ fst b = cid_enc p /\ blen (c_digest p) <= max_digest_alloc) /\
+      blen (fst b) + blen (snd b) <= w_maxs o /\ blen (fst b) + blen (snd b) < two63 in
+    let spec (L : list (bytes * bytes)) :=
+      spec_stored (cs_kind x) o (roots_opt (cs_nil x) (cs_roots x)) (map (fun b => [b]) L) in
+    hdrdec hdr = Some (cs_roots x, 1) ->
+    (exists r, hdrdec pragma_body = Some (r, 2)) ->
+    blen hdr <= w_maxh o -> w_maxcid o <= max_digest_alloc ->
+    match cs_kind x with KStorage false => negb (w_v1 o) | _ => false end = false ->
+    51 + w_dpad o + w_ipad o + ld_size (blen hdr)
+      + blen (enc_sections (concat (map fst (cs_pre x)) ++ cs_puts x)) < two63 ->
+    Forall wellformed_put (cs_attempted x) ->
+    cs_start hdrdec x = Some (f0, start, acked_pre) ->
+    crash_class x start k t = CResume ->
+    let img := image f0 (cs_writes x start) k t in
+    crash_guard x start k t = true /\
+    ((exists e dv, reopen hdrdec (cs_kind x) o (cs_nil x) (cs_roots x) img = inr (e, dv) /\ d_file dv = img)
+     \/
+     (exists s1, reopen hdrdec (cs_kind x) o (cs_nil x) (cs_roots x) img = inl s1 /\
+        ws_file s1 = ws_file start /\ ws_idx s1 = ws_idx start /\ ws_pos s1 = ws_pos start /\
+        cs_acked x start acked_pre k = acked_pre /\
+        StoreSpec.abs s1 = mkm (spec acked_pre) false false /\
+        StoreSpec.abs s1 = StoreSpec.abs start)).
+Proof. exact C06_resume_phase_thm. Qed.
+Print Assumptions C06_resume_phase.
+
+(* (1b) the abstract map at EVERY guarded crash point (open, resume-phase, section boundary, inside
+   a section head): refused untouched, or the resumed store's abstract map is the specification's map
+   of the acknowledged puts -- those of the earlier processes and the first j puts of the crashing
+   one, where j covers every put that had returned (a put in flight whose section is completely in
+   the image counts as well) -- and equals the abstract map the crashed process had after j puts. *)
+Theorem C06_abstract_map :
+  forall (hdrdec : bytes -> option (list bytes * N)) (x : csess) (f0 : bytes) (start : wstate)
+         (acked_pre : list (bytes * bytes)) (k : nat) (t : N),
+    let o := cs_opts x in
+    let hdr := enc_header (roots_opt (cs_nil x) (cs_roots x)) 1 in
+    let wellformed_put (b : bytes * bytes) :=
+      cid_parse (fst b) <> None ->
+      (exists p, cid_ok p /\ fst b = cid_enc p /\ blen (c_digest p) <= max_digest_alloc) /\
+      blen (fst b) + blen (snd b) <= w_maxs o /\ blen (fst b) + blen (snd b) < two63 in
+    let spec (L : list (bytes * bytes)) :=
+      spec_stored (cs_kind x) o (roots_opt (cs_nil x) (cs_roots x)) (map (fun b => [b]) L) in
+    hdrdec hdr = Some (cs_roots x, 1) ->
+    (exists r, hdrdec pragma_body = Some (r, 2)) ->
+    blen hdr <= w_maxh o -> w_maxcid o <= max_digest_alloc ->
+    match cs_kind x with KStorage false => negb (w_v1 o) | _ => false end = false ->
+    51 + w_dpad o + w_ipad o + ld_size (blen hdr)
+      + blen (enc_sections (concat (map fst (cs_pre x)) ++ cs_puts x)) < two63 ->
+    Forall wellformed_put (cs_attempted x) ->
+    cs_start hdrdec x = Some (f0, start, acked_pre) ->
+    crash_guard x start k t = true ->
+    let img := image f0 (cs_writes x start) k t in
+    (exists e dv, reopen hdrdec (cs_kind x) o (cs_nil x) (cs_roots x) img = inr (e, dv) /\ d_file dv = img)
+    \/
+    (exists s1 j, reopen hdrdec (cs_kind x) o (cs_nil x) (cs_roots x) img = inl s1 /\
+       (cs_done x start k <= j <= length (cs_puts x))%nat /\
+       StoreSpec.abs s1 = mkm (spec (acked_pre ++ puts_acked start (firstn j (cs_puts x)))) false false /\
+       StoreSpec.abs s1 = StoreSpec.abs (run_puts start (firstn j (cs_puts x)))).
+Proof. exact C06_abstract_map_thm. Qed.
+Print Assumptions C06_abstract_map.
+
+(* (1c) the continuation, through C05: at every guarded crash point, continuing the resumed store
+   with ANY further puts and Finalize (known index codec) answers nil and leaves THE FILE OF A
+   CRASH-FREE SESSION ([Wf.session], the subject of every C05 theorem) whose puts were all put by
+   the crashed session or the continuation; in particular (C05_inspect_accepts) the library's own
+   Inspect accepts it under any reader limits the header and the blocks fit in, with or without
+   hash validation.  (The run-time check evaluates the executable [wf_final] and the real Inspect
+   on the same files; this is their proved counterpart, (1') has the [wf_parse]/[wf_car] form.) *)
+Theorem C06_continuation :
+  forall (hok : bytes -> bytes -> option bool) (hdrdec : bytes -> option (list bytes * N)) (x : csess)
+         (f0 : bytes) (start : wstate) (acked_pre : list (bytes * bytes)) (k : nat) (t : N),
+    let o := cs_opts x in
+    let hdr := enc_header (roots_opt (cs_nil x) (cs_roots x)) 1 in
+    hdrdec hdr = Some (cs_roots x, 1) ->
+    hdrdec pragma_body = Some ([], 2) ->
+    blen hdr <= w_maxh o -> w_maxcid o <= max_digest_alloc ->
+    match cs_kind x with KStorage false => negb (w_v1 o) | _ => false end = false ->
+    51 + w_dpad o + w_ipad o + ld_size (blen hdr)
+      + blen (enc_sections (concat (map fst (cs_pre x)) ++ cs_puts x)) < two63 ->
+    cs_start hdrdec x = Some (f0, start, acked_pre) ->
+    crash_guard x start k t = true ->
+    let img := image f0 (cs_writes x start) k t in
+    (exists e dv, reopen hdrdec (cs_kind x) o (cs_nil x) (cs_roots x) img = inr (e, dv) /\ d_file dv = img)
+    \/
+    (exists s1, reopen hdrdec (cs_kind x) o (cs_nil x) (cs_roots x) img = inl s1 /\
+      forall (more : list (bytes * bytes)) (r : ropts) (validate : bool),
+        let file := ws_file (fst (fe_finalize (run_puts s1 more))) in
+        51 + w_dpad o + w_ipad o + ld_size (blen hdr)
+          + blen (enc_sections (cs_attempted x)) + blen (enc_sections more) < two63 ->
+        w_v1 o = true \/ idx_new (w_codec o) <> None ->
+        snd (fe_finalize (run_puts s1 more)) = ONil /\
+        (exists h sF outs,
+           session (cs_kind x) o (cs_nil x) (cs_roots x) h = Ok (sF, outs, ONil) /\ ws_file sF = file /\
+           incl (concat h) (cs_attempted x ++ more)) /\
+        (w_maxcid o + 8 <= max_width ->
+         Forall (fun b : block => blen (fst b) + blen (snd b) < 2 ^ 56) (cs_attempted x ++ more) ->
+         blen file < two63 ->
+         blen hdr <= o_maxh r ->
+         Forall (fun b : block => blen (fst b) + blen (snd b) <= o_maxs r) (cs_attempted x ++ more) ->
+         (validate = true -> Forall (hash_good hok) (cs_attempted x ++ more)) ->
+         inspect_check hok hdrdec r validate file = Ok tt)).
+Proof. exact C06_continuation_thm. Qed.
+Print Assumptions C06_continuation.
 
 (* (2) after the last write of the process (in particular after the last header byte of Finalize):
    the reopen succeeds and yields the store with all the puts. *)
